@@ -4,12 +4,30 @@
 (* (lena/flow/elements.py) as pull/yield machines, with their Python       *)
 (* references: reversed(list(xs)), itertools.chain, itertools.count and    *)
 (* the sliding windows of a given size.                                    *)
+(*                                                                         *)
+(* opt is the way the element is constructed / fed:                        *)
+(*   reverse  kind of the flow: iterator, list, tuple, generator, range    *)
+(*   chunk    container of the windows: "tuple" (default), "tuple_it"      *)
+(*            (tuple, from_iterable=True), "list_it", "list_it1"           *)
+(*            (from_iterable=1), "set_it", "frozenset_it", "tuplesub_it"   *)
+(*            (a subclass of tuple from an iterable), "nt" (namedtuple,    *)
+(*            positional arguments), "fn_pos" / "fn_it" (user callables    *)
+(*            taking positional arguments / one iterable, which put the    *)
+(*            marker -1 in front of the window)                            *)
+(*   chain    number and kind of the iterables: "0", "1list", "2list",     *)
+(*            "3list", "3tuple", "3range", "3gen", "3iter", "3mixed"       *)
+(*   count    arguments given: "both", "kwboth", "start" (step defaults    *)
+(*            to 1), "kwstep" (start defaults to 0), "none"                *)
 (***************************************************************************)
 EXTENDS Integers, Sequences, TLC, Json
 
 CONSTANTS MaxN, MaxK
 Starts == {-2, 0, 3}
-StepsC == {-1, 1, 2}
+StepsC == {-1, 0, 1, 2}
+RevOpts == {"iter", "list", "tuple", "gen", "range"}
+ChunkOpts == {"tuple", "tuple_it", "list_it", "list_it1", "set_it", "frozenset_it", "tuplesub_it", "nt", "fn_pos", "fn_it"}
+ChainOpts == {"0", "1list", "2list", "3list", "3tuple", "3range", "3gen", "3iter", "3mixed"}
+CountOpts == {"both", "kwboth", "start", "kwstep", "none"}
 
 RECURSIVE Iota(_)
 Iota(m) == IF m = 0 THEN <<>> ELSE Append(Iota(m - 1), m - 1)
@@ -22,15 +40,20 @@ CountRef(start, step, n) == [j \in 1..n |-> start + (j - 1) * step]
 VARIABLES kind,   \* "reverse" | "chunk" | "chain" | "count"
           p1, p2, \* parameters: chunk size / chain lengths / count start, step
           N,      \* input length (reverse, chunk) or number of values taken (count)
+          opt,    \* construction / feeding variant (see above)
           pos, buf, ph, out, pulls
-vars == <<kind, p1, p2, N, pos, buf, ph, out, pulls>>
+vars == <<kind, p1, p2, N, opt, pos, buf, ph, out, pulls>>
 
+Arity == CASE opt = "0" -> 0 [] opt = "1list" -> 1 [] opt = "2list" -> 2 [] OTHER -> 3
 Init == /\ kind \in {"reverse", "chunk", "chain", "count"}
         /\ N \in 0..MaxN
-        /\ \/ kind = "reverse" /\ p1 = 0 /\ p2 = 0
-           \/ kind = "chunk" /\ p1 \in 1..MaxK /\ p2 = 0
-           \/ kind = "chain" /\ p1 \in 0..MaxN /\ p2 \in 0..MaxN      \* Chain(range(p1), range(p2), range(N))
-           \/ kind = "count" /\ p1 \in Starts /\ p2 \in StepsC
+        /\ \/ kind = "reverse" /\ p1 = 0 /\ p2 = 0 /\ opt \in RevOpts
+           \/ kind = "chunk" /\ p1 \in 1..MaxK /\ p2 = 0 /\ opt \in ChunkOpts
+           \/ /\ kind = "chain" /\ p1 \in 0..MaxN /\ p2 \in 0..MaxN /\ opt \in ChainOpts   \* Chain(range(p1), range(p2), range(N))
+              /\ (opt # "3list" => p1 \in {0, 2} /\ p2 \in {0, 1})
+              /\ (Arity <= 2 => N = 0) /\ (Arity <= 1 => p2 = 0) /\ (Arity = 0 => p1 = 0)
+           \/ /\ kind = "count" /\ p1 \in Starts /\ p2 \in StepsC /\ opt \in CountOpts
+              /\ (opt \in {"start", "none"} => p2 = 1) /\ (opt \in {"kwstep", "none"} => p1 = 0)
         /\ pos = 0 /\ buf = <<>> /\ ph = "run" /\ out = <<>> /\ pulls = <<>>
 
 \* Reverse.run: list(flow), then pop() until empty
@@ -43,24 +66,26 @@ RevPop == /\ kind = "reverse" /\ ph = "pop"
              ELSE ph' = "done" /\ UNCHANGED <<buf, pos, out, pulls>>
 
 \* RunningChunkBy.run: deque(islice(flow, k), maxlen=k); for val in flow: yield chunk; append
+\* the container is built from the window (user callables put the marker -1 in front)
+Wrap(w) == IF opt \in {"fn_pos", "fn_it"} THEN <<-1>> \o w ELSE w
 ChunkFill == /\ kind = "chunk" /\ ph = "run"
              /\ IF Len(buf) < p1 /\ pos < N THEN buf' = Append(buf, pos) /\ pos' = pos + 1 /\ UNCHANGED <<ph, out, pulls>>
                 ELSE ph' = "slide" /\ UNCHANGED <<buf, pos, out, pulls>>
 ChunkSlide == /\ kind = "chunk" /\ ph = "slide"
               /\ IF pos < N
-                 THEN /\ pos' = pos + 1 /\ out' = Append(out, buf) /\ pulls' = Append(pulls, pos')
+                 THEN /\ pos' = pos + 1 /\ out' = Append(out, Wrap(buf)) /\ pulls' = Append(pulls, pos')
                       /\ buf' = IF Len(buf) = p1 THEN Append(Tail(buf), pos) ELSE Append(buf, pos)
                       /\ UNCHANGED ph
                  ELSE /\ ph' = "done" /\ UNCHANGED <<pos, buf>>
-                      /\ IF Len(buf) = p1 THEN out' = Append(out, buf) /\ pulls' = Append(pulls, pos)
+                      /\ IF Len(buf) = p1 THEN out' = Append(out, Wrap(buf)) /\ pulls' = Append(pulls, pos)
                          ELSE UNCHANGED <<out, pulls>>
 
 \* Chain.__call__: itertools.chain over the iterables; buf[1] = current iterable, buf[2] = index in it
-ChainLens == <<p1, p2, N>>
+ChainLens == SubSeq(<<p1, p2, N>>, 1, Arity)
 ChainStep == /\ kind = "chain" /\ ph = "run"
              /\ LET it == IF buf = <<>> THEN 1 ELSE buf[1]
                     j == IF buf = <<>> THEN 0 ELSE buf[2] IN
-                IF it > 3 THEN ph' = "done" /\ UNCHANGED <<buf, out, pulls, pos>>
+                IF it > Arity THEN ph' = "done" /\ UNCHANGED <<buf, out, pulls, pos>>
                 ELSE IF j < ChainLens[it]
                      THEN /\ out' = Append(out, <<it, j>>) /\ pos' = pos + 1 /\ pulls' = Append(pulls, pos')
                           /\ buf' = <<it, j + 1>> /\ UNCHANGED ph
@@ -74,7 +99,7 @@ CountStep == /\ kind = "count" /\ ph = "run"
                                      /\ UNCHANGED <<ph, buf, pos, pulls>>
                 ELSE ph' = "done" /\ UNCHANGED <<out, buf, pos, pulls>>
 
-K == UNCHANGED <<kind, p1, p2, N>>
+K == UNCHANGED <<kind, p1, p2, N, opt>>
 ARevCollect == RevCollect /\ K
 ARevPop == RevPop /\ K
 AChunkFill == ChunkFill /\ K
@@ -87,14 +112,21 @@ Done == ph = "done"
 
 RECURSIVE Tagged(_, _)
 Tagged(it, n) == [j \in 1..n |-> <<it, j - 1>>]
+RECURSIVE ChainRef(_)
+ChainRef(it) == IF it > Arity THEN <<>> ELSE Tagged(it, ChainLens[it]) \o ChainRef(it + 1)
+WrappedWindows == LET ws == Windows(Iota(N), p1) IN [j \in 1..Len(ws) |-> Wrap(ws[j])]
 Ref == CASE kind = "reverse" -> Rev(Iota(N))
-         [] kind = "chunk" -> Windows(Iota(N), p1)
-         [] kind = "chain" -> Tagged(1, p1) \o Tagged(2, p2) \o Tagged(3, N)
+         [] kind = "chunk" -> WrappedWindows
+         [] kind = "chain" -> ChainRef(1)
          [] kind = "count" -> CountRef(p1, p2, N)
 EqRef == Done => out = Ref
 \* RunningChunkBy holds at most chunk_size values; the j-th window needs k + j - 1 input values (+1 look-ahead)
 Min2(x, y) == IF x < y THEN x ELSE y
 ChunkLazy == kind = "chunk" => /\ Len(buf) <= p1
                                /\ \A j \in 1..Len(pulls) : pulls[j] <= Min2(p1 + j, N)
-Emitted == Done => PrintT(ToJson([kind |-> kind, p1 |-> p1, p2 |-> p2, n |-> N, out |-> out, pulls |-> pulls]))
+\* the defaults of CountFrom are start = 0 and step = 1
+CountDefaults == (kind = "count" /\ Done /\ N > 0) =>
+                    /\ (opt \in {"kwstep", "none"} => out[1] = 0)
+                    /\ (opt \in {"start", "none"} /\ N > 1 => out[2] = out[1] + 1)
+Emitted == Done => PrintT(ToJson([kind |-> kind, p1 |-> p1, p2 |-> p2, n |-> N, opt |-> opt, out |-> out, pulls |-> pulls]))
 =============================================================================
